@@ -63,6 +63,7 @@ Definition T_PossDupFlag : str := [52; 51]%N.       (* "43" *)
 Definition T_OrigSendingTime : str := [49; 50; 50]%N.  (* "122" *)
 Definition T_GapFillFlag : str := [49; 50; 51]%N.   (* "123" *)
 Definition T_MsgSeqNum : str := [51; 52]%N.         (* "34" *)
+Definition T_TestReqID : str := [49; 49; 50]%N.     (* "112" *)
 Definition T_SendingTime : str := [53; 50]%N.       (* "52" *)
 Definition T_SenderCompID : str := [52; 57]%N.      (* "49" *)
 Definition T_TargetCompID : str := [53; 54]%N.      (* "56" *)
@@ -91,7 +92,7 @@ Inductive exc :=
 Record st := mkSt {
   cstate : Z;                 (* _connection_state *)
   initiator : bool;           (* _connection_role == INITIATOR *)
-  testreq_pending : bool;     (* _test_req_id is not None *)
+  testreq_id : option str;    (* str(self._test_req_id); None when no probe is pending *)
   nout : Z;                   (* session.next_num_out *)
   sout : Z;                   (* session.outboundSeqNo in the journal *)
   clock : Z;                  (* number of frames encoded so far: SendingTime is T<clock> *)
@@ -130,17 +131,17 @@ Definition recover (lo hi : Z) (rs : list row) : list row :=
    nothing changed), otherwise the stored counter becomes the frame's own number; commit *)
 Definition persist (fr : row) (s : st) : res :=
   if has_key (r_seq fr) (rows s) then Exc EDuplicateSeqNo s
-  else Ok (mkSt (cstate s) (initiator s) (testreq_pending s) (nout s) (r_seq fr) (clock s)
+  else Ok (mkSt (cstate s) (initiator s) (testreq_id s) (nout s) (r_seq fr) (clock s)
                 (rows s ++ [fr]) (wire s) (calls s) (states s)).
 
 (* ------------------------------------------------------------------ connection *)
 
 Definition state_set (v : Z) (s : st) : st :=
-  mkSt v (initiator s) (testreq_pending s) (nout s) (sout s) (clock s) (rows s) (wire s) (calls s)
+  mkSt v (initiator s) (testreq_id s) (nout s) (sout s) (clock s) (rows s) (wire s) (calls s)
        (states s ++ [v]).
 
 Definition set_initiator (s : st) : st :=
-  mkSt (cstate s) true (testreq_pending s) (nout s) (sout s) (clock s) (rows s) (wire s) (calls s) (states s).
+  mkSt (cstate s) true (testreq_id s) (nout s) (sout s) (clock s) (rows s) (wire s) (calls s) (states s).
 
 (* the state gates of send_msg *)
 Definition send_gates (m : msg) (s : st) : res :=
@@ -174,11 +175,21 @@ Definition is_resend_reply (m : msg) : bool :=
   tag_is_Y T_PossDupFlag (m_fields m)
   || (str_eqb (m_type m) MT_SEQUENCERESET && tag_is_Y T_GapFillFlag (m_fields m)).
 
+(* the TestRequest gate: only the probe send_test_req() has just registered may go out -
+   msg_type == TESTREQUEST and (_test_req_id is None or msg.get(TestReqID, None) != str(_test_req_id)).
+   (Not reachable from the resend handler: a TestRequest is session level and never retransmitted.) *)
+Definition testreq_refused (m : msg) (s : st) : bool :=
+  str_eqb (m_type m) MT_TESTREQUEST
+  && match testreq_id s with
+     | None => true
+     | Some t => match get_tag T_TestReqID (m_fields m) with Some v => negb (str_eqb v t) | None => true end
+     end.
+
 Definition send_msg (m : msg) (s : st) : res :=
   match send_gates m s with
   | Exc e s' => Exc e s'
   | Ok s =>
-    if str_eqb (m_type m) MT_TESTREQUEST && negb (testreq_pending s) then Exc EConnection s
+    if testreq_refused m s then Exc EConnection s
     else
       match select_seq m s with
       | None => Exc EEncoding s
@@ -186,7 +197,7 @@ Definition send_msg (m : msg) (s : st) : res :=
           let k := clock s + 1 in
           let fr := mkRow n (m_type m) (time_str k)
                           (filter (fun f => negb (header_skipped (fst f))) (m_fields m)) in
-          let s1 := mkSt (cstate s) (initiator s) (testreq_pending s) nout' (sout s) k (rows s)
+          let s1 := mkSt (cstate s) (initiator s) (testreq_id s) nout' (sout s) k (rows s)
                          (wire s) (calls s) (states s) in
           (* journal first (a journal error leaves nothing on the wire); replies to a ResendRequest
              are not journaled: the journal keeps the original messages *)
@@ -194,7 +205,7 @@ Definition send_msg (m : msg) (s : st) : res :=
           | Exc e s' => Exc e s'
           | Ok s2 =>
               (* writer.write(frame); await drain() *)
-              Ok (mkSt (cstate s2) (initiator s2) (testreq_pending s2) (nout s2) (sout s2) (clock s2) (rows s2)
+              Ok (mkSt (cstate s2) (initiator s2) (testreq_id s2) (nout s2) (sout s2) (clock s2) (rows s2)
                        (wire s2 ++ [fr]) (calls s2) (states s2))
           end
       end
@@ -223,7 +234,7 @@ Definition mk_replay (r : row) : msg :=
         (upsert T_OrigSendingTime (r_time r) (upsert T_PossDupFlag V_Y (r_body r))).
 
 Definition note_call (n : Z) (s : st) : st :=
-  mkSt (cstate s) (initiator s) (testreq_pending s) (nout s) (sout s) (clock s) (rows s) (wire s)
+  mkSt (cstate s) (initiator s) (testreq_id s) (nout s) (sout s) (clock s) (rows s) (wire s)
        (calls s ++ [n]) (states s).
 
 Inductive loop_res := LOk (gfb gfe : Z) (s : st) | LExc (e : exc) (s : st).
